@@ -45,6 +45,19 @@ Section Carrier.
                      (combine (mul_ops m) (tl (mul_operands m))) (va (hd d0 (mul_operands m))).
   Proof. exact (value_mul_is_fold D dadd dsub dmul ddiv dneg num_value). Qed.
 
+  (* SCOPE OF THE OPERAND-UNCHANGED CLAUSES.  NumExpr.v is a pure model: `dunder` returns the operands it was
+     given, so `o_self r = self` and `o_other r = Some x` below hold by the definition of `dunder`; they record
+     what the model CLAIMS about number_expr.py, they do not prove it.  A consuming implementation (`a + b`
+     emptying b, `5 * posting.raw_number` editing the file - the defect this check found) is not a different
+     Gallina function here.  That clause of the property is therefore carried by
+       - the monitor, on the implementation itself: printed text of both operands and of the documents they
+         belong to before/after every non-in-place operator, signature `C13:operand-changed-or-refused`;
+       - the correspondence `numexpr-operator-correspondence`, which compares the observed (store prefix,
+         tree, store suffix) of result, self and operand after every step with `o_result/o_self/o_other`.
+     Aliasing (`x += x`) is outside the pure model too: NumExprRun.check_step compares the aliased operand
+     with `o_self` instead of `o_other` (flag `aliased`).
+     What IS proved here about operands: the result's tree, value and text, the frame of in-place edits
+     (`pre`/`post` kept), that non-in-place results live in a fresh store, and that no call is refused. *)
   (* every binary operator, plain / reflected / in-place, int / Decimal / expression operand, free or
      attached: never refuses; the result tree is `new_body`; its value is the arithmetic result;
      non-in-place forms return `self` untouched and a fresh store; in-place edits only between
@@ -85,12 +98,22 @@ Section Carrier.
     eval_top (significant (re (body x))) = Some (value x).
   Proof. exact (result_reparses D dadd dsub dmul ddiv dneg num_value). Qed.
 
-  (* chains of operator applications of any length *)
-  Theorem C13_chain : forall l x, exists x',
+  (* chains of operator applications (and value assignments) of any length *)
+  Theorem C13_chain : forall l x, forallb (step_arith D) l = true -> exists x',
     apply_chain x l = Ok x' /\
     value x' = fold_left arith_step l (value x) /\
     eval_top (significant (re (body x'))) = Some (fold_left arith_step l (value x)).
   Proof. exact (chain_spec D dadd dsub dmul ddiv dneg dabs dltz of_int num_value num_text). Qed.
+
+  (* `.value` is a function of the CURRENT tree (no remembered result): after any history of operator
+     applications, in-place edits of Number / operator tokens anywhere inside the expression (also inside
+     parentheses an earlier in-place operator added) and value assignments, the value is the usual
+     evaluation of the text printed now, and that text parses back to the current tree *)
+  Theorem C13_history_value : forall l x, exists x',
+    apply_chain x l = Ok x' /\
+    eval_top (significant (re (body x'))) = Some (value x') /\
+    parse_top (significant (re (body x'))) = Some (se (body x')).
+  Proof. exact (history_value D dadd dsub dmul ddiv dneg dabs dltz of_int num_value num_text). Qed.
 
   (* in-place chains on an expression inside a document keep everything outside the expression *)
   Theorem C13_inplace_chain_frame : forall l x x',
@@ -105,7 +128,29 @@ Section Carrier.
     text (re (body (from_value D dabs dltz num_text v))) =
       (if dltz v then [CH_MINUS] ++ num_text (dabs v) else num_text (dabs v)).
   Proof. exact (from_value_spec D dadd dsub dmul ddiv dneg dabs dltz num_value num_text). Qed.
+
+  (* ... and its value is exactly v, under the three laws of decimal that the code relies on
+     (copy_abs / copy_negate / plain-notation round trip; validated per run against CPython) *)
+  Theorem C13_from_value_exact :
+    (forall v, num_value (num_text (dabs v)) = dabs v) ->
+    (forall v, dltz v = true -> dneg (dabs v) = v) ->
+    (forall v, dltz v = false -> dabs v = v) ->
+    forall v, value (from_value D dabs dltz num_text v) = v.
+  Proof. exact (from_value_exact D dadd dsub dmul ddiv dneg dabs dltz num_value num_text). Qed.
 End Carrier.
+
+(* the three laws are satisfiable (carrier Z, a number is spelled by one code point) *)
+Example C13_from_value_exact_nonvacuous :
+  let num_value := fun s : str => hd 0 s in
+  let num_text := fun z : Z => [z] in
+  (forall v, num_value (num_text (Z.abs v)) = Z.abs v) /\
+  (forall v, (v <? 0) = true -> Z.opp (Z.abs v) = v) /\
+  (forall v, (v <? 0) = false -> Z.abs v = v).
+Proof.
+  cbv zeta. split; [reflexivity|]. split; intros v H.
+  - apply Z.ltb_lt in H. lia.
+  - apply Z.ltb_ge in H. lia.
+Qed.
 
 (* non-vacuity of the one theorem with hypotheses: `posting.raw_number += 2; posting.raw_number *= 3`
    inside "  10 + 2 USD" (carrier Z) *)
@@ -113,8 +158,8 @@ Example C13_inplace_chain_frame_nonvacuous :
   let x := NE [TWs [32; 32]] (AOp (AMul (MAtom (Num [49; 48]))) [32] false [32] (MAtom (Num [50])))
               [TWs [32]; TNum [85; 83; 68]] in
   let l := [SBin OpAdd InPlace (OInt 2); SBin OpMul InPlace (OInt 3)] in
-  forallb (step_inplace Z) l = true /\
+  forallb (step_inplace Z) l = true /\ forallb (step_arith Z) l = true /\
   exists x', apply_chain Z Z.abs (fun z => z <? 0) (fun z => z) (fun z => [48 + z]) x l = Ok x' /\
              text (store_toks x') =
              [32;32; 40; 49;48; 32; 43; 32; 50; 32; 43; 32; 50; 41; 32; 42; 32; 51; 32; 85;83;68].
-Proof. cbv zeta. split; [reflexivity|]. eexists. split; vm_compute; reflexivity. Qed.
+Proof. cbv zeta. split; [reflexivity|]. split; [reflexivity|]. eexists. split; vm_compute; reflexivity. Qed.
